@@ -503,24 +503,120 @@ fn run_rogue(c: &RogueCase) -> CaseResult {
     }
 }
 
+// ---------------------------------------------------------------------------------------------
+// the proven identity differs from the peer id that was dialed (real nodes over loopback TCP)
+
+#[derive(Debug, Clone, Serialize, Deserialize)]
+pub struct DialedCase {
+    /// whose id is put behind /p2p/ of the listener's address: 0 a peer that exists nowhere, 1 a third running node, 2 the listener itself (control)
+    pub expect: u8,
+    /// 0 dial_address(address with the id), 1 add_known_address(id, address) + dial(id)
+    pub via: u8,
+    /// dial again after the first attempt (a cached / half-finished state must not turn the mismatch into a connection)
+    pub redial: bool,
+    pub seed: u64,
+}
+
+fn dialed_strategy() -> impl Strategy<Value = DialedCase> {
+    (prop_oneof![3 => Just(0u8), 3 => Just(1u8), 1 => Just(2u8)], 0u8..2, any::<bool>(), any::<u64>()).prop_map(|(expect, via, redial, seed)| DialedCase { expect, via, redial, seed })
+}
+
+fn run_dialed(c: &DialedCase) -> CaseResult {
+    use crate::f4::{full_address, wait_until, Cmd, Log, Node, NodeSetup, ObsKind};
+    use multiaddr::Protocol;
+    let log: Log = std::sync::Arc::new(parking_lot::Mutex::new(Vec::new()));
+    let base = NodeSetup {
+        connection_open_timeout: Some(Duration::from_millis(1500)),
+        substream_open_timeout: Some(Duration::from_millis(1500)),
+        keep_alive: Some(Duration::from_secs(5)),
+        ping: true,
+        ..Default::default()
+    };
+    let mut nodes = Vec::new();
+    for i in 0..3usize {
+        nodes.push(Node::spawn(i, NodeSetup { seed: c.seed % 1000 + 70_000 + i as u64, ..base.clone() }, log.clone()).map_err(|e| CaseFail::new("C01/harness-node-start-failed", e))?);
+    }
+    let (b, third) = (nodes[1].peer, nodes[2].peer);
+    let claimed: PeerId = match c.expect % 3 {
+        0 => crate::common::peer_from_seed(c.seed ^ 0xC01),
+        1 => third,
+        _ => b,
+    };
+    // the listener's socket address with the claimed id behind /p2p/
+    let bare: multiaddr::Multiaddr = full_address(&nodes[1]).iter().filter(|p| !matches!(p, Protocol::P2p(_))).collect();
+    let addr = bare.with(Protocol::P2p(claimed.into()));
+    let attempts = if c.redial { 2 } else { 1 };
+    for k in 0..attempts {
+        if c.via % 2 == 0 {
+            nodes[0].send(Cmd::DialAddress(addr.clone()));
+        } else {
+            nodes[0].send(Cmd::AddKnown(claimed, vec![addr.clone()]));
+            nodes[0].send(Cmd::Dial(claimed));
+        }
+        let mark = log.lock().len();
+        let settled = wait_until(&log, Duration::from_secs(4), |l| {
+            l[mark.min(l.len())..].iter().any(|o| o.node == 0 && matches!(&o.kind, ObsKind::ConnEstablished { .. } | ObsKind::DialFailure { .. } | ObsKind::ListDialFailures { .. }))
+        });
+        if c.expect % 3 == 2 {
+            ensure!(
+                settled && log.lock().iter().any(|o| o.node == 0 && matches!(&o.kind, ObsKind::ConnEstablished { peer, .. } if *peer == b)),
+                "C01/harness-calibration-failed",
+                "the control dial (correct id) did not connect"
+            );
+            break;
+        }
+        ensure!(settled || k > 0, "C01/dial-with-wrong-peer-id-ended-in-silence", "neither a connection nor a dial failure within 4 s");
+        std::thread::sleep(Duration::from_millis(80));
+    }
+    std::thread::sleep(Duration::from_millis(120));
+    let history = log.lock().clone();
+    drop(nodes);
+    if c.expect % 3 != 2 {
+        for o in history.iter().filter(|o| o.node == 0) {
+            if let ObsKind::ConnEstablished { peer, .. } = &o.kind {
+                fail!(
+                    "C01/connection-reported-although-the-proven-identity-differs-from-the-dialed-peer",
+                    "dialed {claimed} at the address of {b}; the node reported a connection with {peer}"
+                );
+            }
+        }
+        ensure!(
+            history.iter().any(|o| o.node == 0 && matches!(&o.kind, ObsKind::DialFailure { .. } | ObsKind::ListDialFailures { .. })),
+            "C01/dial-with-wrong-peer-id-not-reported-as-failed",
+            "no dial failure event for {addr}"
+        );
+    }
+    Ok(CaseOk::trivial()
+        .nt(c.expect % 3 != 2)
+        .class(match c.expect % 3 {
+            0 => "claimed-id-of-nobody",
+            1 => "claimed-id-of-a-third-running-node",
+            _ => "control-correct-id",
+        })
+        .class_if(c.redial, "redialed")
+        .class(if c.via % 2 == 0 { "dial_address" } else { "add_known_address+dial" }))
+}
+
 pub fn run(ctx: &mut Ctx) {
     ctx.rule = "(mitm) two honest peers with generated identity keys over a scripted carrier (chunk/Pending scripts on all four poll paths); optionally one edit of one of the \
         three handshake messages: flip any bit (length prefix included), truncate at any offset, drop, duplicate, or substitute the same-numbered message of an independent \
         recorded honest session. (rogue) the harness plays dialer or listener with snow + x25519-dalek, completes a valid XX session and sends a generated identity payload: \
         key in {own, another peer's, unsupported type, own non-canonically encoded, garbage, missing} x signature in {valid, by own key for another identity, another peer's \
         genuine signature replayed from another session, own over another static key, wrong/no domain prefix, truncated, bit-flipped, empty, missing, garbage} x extensions / \
-        unknown fields / whole-payload garbage. Non-trivial = an edit, or a split honest handshake, or any rogue case; distinct by case hash."
+        unknown fields / whole-payload garbage. (dialed-peer-mismatch) three real nodes; one dials the second's address with the id of nobody / of the third node / the right one (control) behind /p2p/, by dial_address or add_known_address + dial, \
+        optionally twice: a dial failure is reported and no connection ever. Non-trivial = an edit, or a split honest handshake, or any rogue case, or a wrong claimed id; distinct by case hash."
         .into();
     ctx.assumptions = vec![
         "oracle verifies the proof itself with ed25519-dalek over 'noise-libp2p-static-key:' || the rogue's static key of this session; key bytes are extracted with litep2p's key decoder (covered by C18/C19)".into(),
         "Noise XX makes it unavoidable that the dialer's handshake() returns Ok when only what the listener receives after message 2 is altered (message 3, or a duplicate of message 1); there the oracle demands that the listener fails and the dialer's first read errors".into(),
         "a non-canonical but valid protobuf encoding of the rogue's own key is accepted by litep2p under the peer id of those bytes; the statement is satisfied literally and the class is counted".into(),
-        "dialed-peer mismatch (PeerIdMismatch) is checked with real nodes in the C07/C05 harness family, not here".into(),
+        "dialed-peer mismatch is checked with real nodes over loopback TCP (campaign dialed-peer-mismatch): the dialing node must report a dial failure and never a connection, whoever's id was claimed".into(),
     ];
     let t = ctx.tier;
     ctx.campaign("honest", CampaignCfg::new(t.pick(800, 20_000)).shards(16), || mitm_strategy(false), run_mitm);
     ctx.campaign("mitm", CampaignCfg::new(t.pick(2_500, 60_000)).shards(16), || mitm_strategy(true), run_mitm);
     ctx.campaign("rogue", CampaignCfg::new(t.pick(3_000, 80_000)).shards(16), rogue_strategy, run_rogue);
+    ctx.campaign("dialed-peer-mismatch", CampaignCfg::new(t.pick(160, 3_000)).shards(16).shrink_iters(6), dialed_strategy, run_dialed);
     // exhaustive single-bit flips over all three messages of a few sessions (thorough: 20 sessions)
     let mut flips: Vec<MitmCase> = Vec::new();
     let sessions = t.pick(1u64, 20);
